@@ -27,6 +27,8 @@ RULE = ('choice tree: model x document of D(T) x sharing (every pair of equal su
 ASSUMPTIONS = [
     'two sub-trees are "equal" when kind, tag and value agree recursively; the aliased text is produced by PyYAML\'s '
     'serializer from a node graph in which both positions hold the same node object',
+    'every aliased and every cyclic document is also read as a one-document stream (yaml.load_all with the function\'s loader '
+    'class, i.e. through Loader.get_node): same requirement',
     'any failure equals any failure (the exception type is C08\'s business), except that a cycle must not end in '
     'RecursionError/MemoryError and must not yield a value',
 ]
@@ -36,7 +38,8 @@ def BOUNDS(tier):
     return {'models': len(units(tier)), 'collection_width': 2, 'tiny_nodes': 3,
             'mutated_valid_docs_per_model': 3 if tier == 'quick' else 12,
             'sharing': 'every pair + maximal sharing' + ('' if tier == 'quick' else ' + every triple'),
-            'cycles': 'every collection node at every descendant position (values, items, keys)'}
+            'cycles': 'every collection node at every descendant position (values, items, keys)' + (
+                ' of the valid, duplicate-key, complex-key and merge-key documents' if tier == 'quick' else ' of every document')}
 
 
 def special_models():
@@ -288,6 +291,14 @@ def run_unit(unit, tier):
             res.transitions += 1
             if o0[0] == 'ok':
                 res.nontrivial += 1
+            o2 = case.impl_stream(atext)
+            res.traces += 1
+            if not same(o0, o2):
+                res.violation('C18:alias-in-stream:%s:%s->%s' % (where(spec, tree, groups), 'ok' if o0[0] == 'ok' else 'fail',
+                                                                 'ok' if o2[0] == 'ok' else 'fail'),
+                              'expanded %r gives %s; aliased %r read as a one-document stream (load_all) gives %s' % (
+                                  text, describe(o0), atext, describe(o2)),
+                              loadcase.payload(spec, text, aliased=atext, kind='alias-stream'))
             if same(o0, o1):
                 res.hist['alias:' + ('ok' if o0[0] == 'ok' else 'fail')] += 1
                 if o0[0] == 'ok':
@@ -299,6 +310,8 @@ def run_unit(unit, tier):
                               loadcase.payload(spec, text, aliased=atext, kind='alias'))
         if kind == 'tiny' and fam not in ('misc', 'two-types'):
             continue
+        if tier == 'quick' and kind not in ('valid', 'tiny', 'dupkey', 'merge', 'complexkey'):
+            continue        # quick: cycles through valid, duplicate-key, complex-key and merge-key documents only
         for cpath, dpath in cycles(tree):
             root = to_node(tree)
             set_at(root, dpath, node_at(root, cpath))
@@ -315,6 +328,11 @@ def run_unit(unit, tier):
             res.traces += 1
             res.transitions += 1
             res.nontrivial += 1
+            os_ = case.impl_stream(ctext)
+            if os_[0] == 'ok' or (os_[0] == 'exc' and isinstance(os_[1], (RecursionError, MemoryError))):
+                res.violation('C18:cycle-in-stream:%s' % ('value' if os_[0] == 'ok' else type(os_[1]).__name__),
+                              'self-referential document %r read as a one-document stream (load_all): %s' % (ctext, describe(os_)),
+                              loadcase.payload(spec, ctext, kind='cycle-stream'))
             if o[0] in ('rej', 'yamlerr'):
                 res.hist['cycle:rejected'] += 1
                 if res.hist['cycle:rejected'] == 1:
@@ -343,6 +361,14 @@ def finish(total, tier):
 
 def replay(payload):
     case = loadcase.Case(payload['spec'])
+    if payload['kind'] == 'cycle-stream':
+        o = case.impl_stream(payload['text'])
+        viol = o[0] == 'ok' or (o[0] == 'exc' and isinstance(o[1], (RecursionError, MemoryError)))
+        return viol, 'cycle %r as a stream: %s' % (payload['text'], describe(o))
+    if payload['kind'] == 'alias-stream':
+        o0 = case.impl(payload['text'])
+        o2 = case.impl_stream(payload['aliased'])
+        return (not same(o0, o2)), 'expanded: %s | aliased, as a stream: %s' % (describe(o0), describe(o2))
     if payload['kind'] == 'cycle':
         o = case.impl(payload['text'])
         viol = o[0] == 'ok' or (o[0] == 'exc' and isinstance(o[1], (RecursionError, MemoryError)))
